@@ -7,35 +7,35 @@ import Spydr.IR.SepOps6
 import Spydr.IR.SepRef
 namespace Spydr.IR
 
-theorem sep_setRef (s : S) (off i d) : Sep s off → (Op.setRef i d).above off →
-    Sep (step s (.setRef i d)).1 off ∧ LowEq (step s (.setRef i d)).1 s off := by
+theorem sep_setRef (s : S) (R : OId → Prop) (i d) : Sep s R → (Op.setRef i d).inside R →
+    Sep (step s (.setRef i d)).1 R ∧ OutEq (step s (.setRef i d)).1 s R := by
   intro hs ho
-  simp only [Op.above] at ho
+  simp only [Op.inside] at ho
   simp only [step, S.setRefStep]
   cases d with
-  | none => exact sep_dropRef s off i hs ho.1
+  | none => exact sep_dropRef s R i hs ho.1
   | some d' =>
-    have hd : off ≤ d' := by simpa [optAbove] using ho.2
+    have hd : R d' := by simpa [optIn] using ho.2
     cases hr : s.instRef i with
-    | none => exact sep_firstRef s off i d' hs ho.1 hd
+    | none => exact sep_firstRef s R i d' hs ho.1 hd
     | some d0 =>
       simp only []
       split
-      · exact ⟨hs, lowEq_refl s off⟩
-      · exact sep_repoint s off i d0 d' hs ho.1 hr hd
+      · exact ⟨hs, outEq_refl s R⟩
+      · exact sep_repoint s R i d0 d' hs ho.1 hr hd
 
-theorem sep_addChildTail (s1 s : S) (off d i : OId) (h1 : Sep s1 off ∧ LowEq s1 s off) (hd : off ≤ d) (hi : off ≤ i) :
+theorem sep_addChildTail (s1 s : S) (R : OId → Prop) (d i : OId) (h1 : Sep s1 R ∧ OutEq s1 s R) (hd : R d) (hi : R i) :
     Sep { s1 with children := fun d' => if d' = d then s1.children d' ++ [i] else s1.children d'
-                  instParent := fun i' => if i' = i then some d else s1.instParent i' } off ∧
-    LowEq { s1 with children := fun d' => if d' = d then s1.children d' ++ [i] else s1.children d'
-                    instParent := fun i' => if i' = i then some d else s1.instParent i' } s off := by
+                  instParent := fun i' => if i' = i then some d else s1.instParent i' } R ∧
+    OutEq { s1 with children := fun d' => if d' = d then s1.children d' ++ [i] else s1.children d'
+                    instParent := fun i' => if i' = i then some d else s1.instParent i' } s R := by
   obtain ⟨⟨b1,b2,b3,b4,b5,b6,b7,b8,b9,b10,b11,b12,b13,b14,b15,b16,b17,b18,b19,b20,b21,b22⟩, ⟨l1, l2, l3⟩⟩ := h1
   refine ⟨?_, ?_⟩
   · refine ⟨b1,b2,b3,b4,?_,b6,b7,b8,b9,b10,b11,b12,b13,b14,b15,?_,b17,b18,b19,b20,b21,b22⟩
     · intro x y h
       by_cases e : x = i
       · subst e; simp at h; subst h
-        exact ⟨fun a => absurd a (Nat.not_lt.mpr hi), fun a => absurd a (Nat.not_lt.mpr hd)⟩
+        exact iff_of_true hi hd
       · simp only [if_neg e] at h; exact b5 x y h
     · intro x y h
       by_cases e : x = d
@@ -44,111 +44,111 @@ theorem sep_addChildTail (s1 s : S) (off d i : OId) (h1 : Sep s1 off ∧ LowEq s
         rcases h with h | h
         · exact b16 x y h
         · subst h
-          exact ⟨fun a => absurd a (Nat.not_lt.mpr hd), fun a => absurd a (Nat.not_lt.mpr hi)⟩
+          exact iff_of_true hd hi
       · simp only [if_neg e] at h; exact b16 x y h
   · refine ⟨?_, l2, l3⟩
     intro x hx
     have := l1 x hx
-    have hxd : x ≠ d := fun e => (Nat.not_lt.mpr hd) (e ▸ hx)
-    have hxi : x ≠ i := fun e => (Nat.not_lt.mpr hi) (e ▸ hx)
+    have hxd : x ≠ d := fun e => hx (e ▸ hd)
+    have hxi : x ≠ i := fun e => hx (e ▸ hi)
     simp only [hxd, hxi, if_false]
     exact this
 
-theorem sep_createChild (s : S) (off d i ref veto) : Sep s off → (Op.createChild d i ref veto).above off →
-    Sep (step s (.createChild d i ref veto)).1 off ∧ LowEq (step s (.createChild d i ref veto)).1 s off := by
+theorem sep_createChild (s : S) (R : OId → Prop) (d i ref veto) : Sep s R → (Op.createChild d i ref veto).inside R →
+    Sep (step s (.createChild d i ref veto)).1 R ∧ OutEq (step s (.createChild d i ref veto)).1 s R := by
   intro hs ho
-  simp only [Op.above] at ho
+  simp only [Op.inside] at ho
   cases ref with
   | none =>
     simp only [step]
     split
-    · exact ⟨hs, lowEq_refl s off⟩
+    · exact ⟨hs, outEq_refl s R⟩
     · split
-      · exact ⟨hs, lowEq_refl s off⟩
-      · exact sep_addChildTail s s off d i ⟨hs, lowEq_refl s off⟩ ho.1 ho.2.1
+      · exact ⟨hs, outEq_refl s R⟩
+      · exact sep_addChildTail s s R d i ⟨hs, outEq_refl s R⟩ ho.1 ho.2.1
   | some r =>
     simp only [step]
     split
-    · exact ⟨hs, lowEq_refl s off⟩
+    · exact ⟨hs, outEq_refl s R⟩
     · split
-      · exact ⟨hs, lowEq_refl s off⟩
-      · exact sep_addChildTail (s.firstRef i r) s off d i
-          (sep_firstRef s off i r hs ho.2.1 (by simpa [optAbove] using ho.2.2)) ho.1 ho.2.1
+      · exact ⟨hs, outEq_refl s R⟩
+      · exact sep_addChildTail (s.firstRef i r) s R d i
+          (sep_firstRef s R i r hs ho.2.1 (by simpa [optIn] using ho.2.2)) ho.1 ho.2.1
 
-theorem sep_setTopDef (s : S) (off n d t) : Sep s off → (Op.setTopDef n d t).above off →
-    Sep (step s (.setTopDef n d t)).1 off ∧ LowEq (step s (.setTopDef n d t)).1 s off := by
+theorem sep_setTopDef (s : S) (R : OId → Prop) (n d t) : Sep s R → (Op.setTopDef n d t).inside R →
+    Sep (step s (.setTopDef n d t)).1 R ∧ OutEq (step s (.setTopDef n d t)).1 s R := by
   intro hs ho
-  simp only [Op.above] at ho
+  simp only [Op.inside] at ho
   simp only [step]
   split
-  · exact ⟨hs, lowEq_refl s off⟩
+  · exact ⟨hs, outEq_refl s R⟩
   · obtain ⟨⟨b1,b2,b3,b4,b5,b6,b7,b8,b9,b10,b11,b12,b13,b14,b15,b16,b17,b18,b19,b20,b21,b22⟩, ⟨l1, l2, l3⟩⟩ :=
-      sep_firstRef s off t d hs ho.2.2 ho.2.1
+      sep_firstRef s R t d hs ho.2.2 ho.2.1
     refine ⟨?_, ?_⟩
     · refine ⟨b1,b2,b3,b4,b5,b6,b7,b8,b9,b10,?_,b12,b13,b14,b15,b16,b17,b18,b19,b20,b21,b22⟩
       intro x y h
       by_cases e : x = n
       · subst e; simp at h; subst h
-        exact ⟨fun a => absurd a (Nat.not_lt.mpr ho.1), fun a => absurd a (Nat.not_lt.mpr ho.2.2)⟩
+        exact iff_of_true ho.1 ho.2.2
       · simp only [if_neg e] at h; exact b11 x y h
     · refine ⟨?_, l2, l3⟩
       intro x hx
       have := l1 x hx
-      have hxn : x ≠ n := fun e => (Nat.not_lt.mpr ho.1) (e ▸ hx)
+      have hxn : x ≠ n := fun e => hx (e ▸ ho.1)
       simp only [hxn, if_false]
       exact this
 
-/-- a call confined to the high region keeps the regions separated and leaves the low region alone -/
-theorem step_sep (s : S) (off : OId) (op : Op) (hs : Sep s off) (ho : op.above off) :
-    Sep (step s op).1 off ∧ LowEq (step s op).1 s off := by
+/-- a call confined to a region keeps the regions separated and leaves everything outside it alone -/
+theorem step_sep (s : S) (R : OId → Prop) (op : Op) (hs : Sep s R) (ho : op.inside R) :
+    Sep (step s op).1 R ∧ OutEq (step s op).1 s R := by
   cases op with
-  | addLibrary n l pos veto => exact sep_addLibrary s off n l pos veto hs ho
-  | removeLibrary n l => exact sep_removeLibrary s off n l hs ho
-  | removeLibrariesFrom n ls => exact sep_removeLibrariesFrom s off n ls hs ho
-  | setLibraries n ls => exact sep_setLibraries s off n ls hs ho
-  | addDefinition l d pos veto => exact sep_addDefinition s off l d pos veto hs ho
-  | removeDefinition l d => exact sep_removeDefinition s off l d hs ho
-  | removeDefinitionsFrom l ds => exact sep_removeDefinitionsFrom s off l ds hs ho
-  | setDefinitions l ds => exact sep_setDefinitions s off l ds hs ho
-  | addPort d p pos veto => exact sep_addPort s off d p pos veto hs ho
-  | removePort d p => exact sep_removePort s off d p hs ho
-  | removePortsFrom d ps => exact sep_removePortsFrom s off d ps hs ho
-  | setPorts d ps => exact sep_setPorts s off d ps hs ho
-  | addCable d c pos veto => exact sep_addCable s off d c pos veto hs ho
-  | removeCable d c => exact sep_removeCable s off d c hs ho
-  | removeCablesFrom d cs => exact sep_removeCablesFrom s off d cs hs ho
-  | setCables d cs => exact sep_setCables s off d cs hs ho
-  | addChild d i pos veto => exact sep_addChild s off d i pos veto hs ho
-  | removeChild d i => exact sep_removeChild s off d i hs ho
-  | removeChildrenFrom d is => exact sep_removeChildrenFrom s off d is hs ho
-  | setChildren d is => exact sep_setChildren s off d is hs ho
-  | createChild d i ref veto => exact sep_createChild s off d i ref veto hs ho
-  | addPin p q pos => exact sep_addPin s off p q pos hs ho
-  | removePin p q => exact sep_removePin s off p q hs ho
-  | removePinsFrom p qs => exact sep_removePinsFrom s off p qs hs ho
-  | setPins p qs => exact sep_setPins s off p qs hs ho
-  | addWire c w pos => exact sep_addWire s off c w pos hs ho
-  | removeWire c w => exact sep_removeWire s off c w hs ho
-  | removeWiresFrom c ws => exact sep_removeWiresFrom s off c ws hs ho
-  | setWires c ws => exact sep_setWires s off c ws hs ho
-  | connectInner w q pos => exact sep_connectInner s off w q pos hs ho
-  | connectOuter w i q pos => exact sep_connectOuter s off w i q pos hs ho
-  | disconnect w r => exact sep_disconnect s off w r hs ho
-  | disconnectFrom w rs => exact sep_disconnectFrom s off w rs hs ho
-  | setWirePins w rs => exact sep_setWirePins s off w rs hs ho
-  | setRef i d => exact sep_setRef s off i d hs ho
-  | setTop n i => exact sep_setTop s off n i hs ho
-  | setTopDef n d t => exact sep_setTopDef s off n d t hs ho
+  | addLibrary n l pos veto => exact sep_addLibrary s R n l pos veto hs ho
+  | removeLibrary n l => exact sep_removeLibrary s R n l hs ho
+  | removeLibrariesFrom n ls => exact sep_removeLibrariesFrom s R n ls hs ho
+  | setLibraries n ls => exact sep_setLibraries s R n ls hs ho
+  | addDefinition l d pos veto => exact sep_addDefinition s R l d pos veto hs ho
+  | removeDefinition l d => exact sep_removeDefinition s R l d hs ho
+  | removeDefinitionsFrom l ds => exact sep_removeDefinitionsFrom s R l ds hs ho
+  | setDefinitions l ds => exact sep_setDefinitions s R l ds hs ho
+  | addPort d p pos veto => exact sep_addPort s R d p pos veto hs ho
+  | removePort d p => exact sep_removePort s R d p hs ho
+  | removePortsFrom d ps => exact sep_removePortsFrom s R d ps hs ho
+  | setPorts d ps => exact sep_setPorts s R d ps hs ho
+  | addCable d c pos veto => exact sep_addCable s R d c pos veto hs ho
+  | removeCable d c => exact sep_removeCable s R d c hs ho
+  | removeCablesFrom d cs => exact sep_removeCablesFrom s R d cs hs ho
+  | setCables d cs => exact sep_setCables s R d cs hs ho
+  | addChild d i pos veto => exact sep_addChild s R d i pos veto hs ho
+  | removeChild d i => exact sep_removeChild s R d i hs ho
+  | removeChildrenFrom d is => exact sep_removeChildrenFrom s R d is hs ho
+  | setChildren d is => exact sep_setChildren s R d is hs ho
+  | createChild d i ref veto => exact sep_createChild s R d i ref veto hs ho
+  | addPin p q pos => exact sep_addPin s R p q pos hs ho
+  | removePin p q => exact sep_removePin s R p q hs ho
+  | removePinsFrom p qs => exact sep_removePinsFrom s R p qs hs ho
+  | setPins p qs => exact sep_setPins s R p qs hs ho
+  | addWire c w pos => exact sep_addWire s R c w pos hs ho
+  | removeWire c w => exact sep_removeWire s R c w hs ho
+  | removeWiresFrom c ws => exact sep_removeWiresFrom s R c ws hs ho
+  | setWires c ws => exact sep_setWires s R c ws hs ho
+  | connectInner w q pos => exact sep_connectInner s R w q pos hs ho
+  | connectOuter w i q pos => exact sep_connectOuter s R w i q pos hs ho
+  | disconnect w r => exact sep_disconnect s R w r hs ho
+  | disconnectFrom w rs => exact sep_disconnectFrom s R w rs hs ho
+  | setWirePins w rs => exact sep_setWirePins s R w rs hs ho
+  | setRef i d => exact sep_setRef s R i d hs ho
+  | setTop n i => exact sep_setTop s R n i hs ho
+  | setTopDef n d t => exact sep_setTopDef s R n d t hs ho
 
-/-- any history of calls confined to the high region never shows in the low region -/
-theorem run_sep (off : OId) (ops : List Op) (s : S) (hs : Sep s off) (ho : ∀ op ∈ ops, op.above off) :
-    Sep (run s ops).1 off ∧ LowEq (run s ops).1 s off := by
+/-- any history of calls confined to a region never shows outside it -/
+theorem run_sep (R : OId → Prop) (ops : List Op) (s : S) (hs : Sep s R) (ho : ∀ op ∈ ops, op.inside R) :
+    Sep (run s ops).1 R ∧ OutEq (run s ops).1 s R := by
   induction ops generalizing s with
-  | nil => exact ⟨hs, lowEq_refl s off⟩
+  | nil => exact ⟨hs, outEq_refl s R⟩
   | cons op ops ih =>
     simp only [run]
-    have h1 := step_sep s off op hs (ho op (by simp))
+    have h1 := step_sep s R op hs (ho op (by simp))
     have h2 := ih (step s op).1 h1.1 (fun o h => ho o (by simp [h]))
-    exact ⟨h2.1, lowEq_trans h2.2 h1.2⟩
+    exact ⟨h2.1, outEq_trans h2.2 h1.2⟩
 
 end Spydr.IR
